@@ -223,8 +223,14 @@ def history_bound(ctx, variant):
                                             "Ch": {"Type": "Choice", "Choices": [{"Variable": "$.i", "NumericLessThan": 20000, "Next": "Inc"}], "Default": "Done"},
                                             "Done": {"Type": "Succeed"}}}
         funcs = {}
+    elif variant == "catch-all-loop":
+        # an error handler that takes every error and goes round again: reaching the bound is not an error of the state that a States.ALL handler could take
+        asl = {"StartAt": "A", "States": {"A": F.T("boom", Catch=[{"ErrorEquals": ["States.ALL"], "Next": "Again"}], Next="Done"), "Again": {"Type": "Pass", "Result": {"i": 0}, "Next": "A"},
+                                          "Done": {"Type": "Succeed"}}}
+        funcs = {"boom": ["fail", "Boom"]}
     else:
-        asl = {"StartAt": "A", "States": {"A": F.T("boom", Retry=[{"ErrorEquals": ["Boom"], "IntervalSeconds": 0, "MaxAttempts": 99999999, "BackoffRate": 1.0}], Next="Done"),
+        names = ["Boom"] if variant == "retry" else ["States.ALL"]
+        asl = {"StartAt": "A", "States": {"A": F.T("boom", Retry=[{"ErrorEquals": names, "IntervalSeconds": 0, "MaxAttempts": 99999999, "BackoffRate": 1.0}], Next="Done"),
                                           "Done": {"Type": "Succeed"}}}
         funcs = {"boom": ["fail", "Boom"]}
     case = dict(place="history", variant=variant)
@@ -237,7 +243,13 @@ def history_bound(ctx, variant):
         e = w.start_event(sm, "e", {"i": 0})
         eng0 = next(iter(w.engines.values()))
         # stop as soon as the bound (plus generous slack) has clearly been passed: an unbounded run is the violation
-        w.run(max_steps=2000000, until=lambda world: len(eng0.se.execution_history.get(e) or []) > L_HIST + 300)
+        try:
+            w.run(max_steps=400000, until=lambda world: len(eng0.se.execution_history.get(e) or []) > L_HIST + 300)
+        except RuntimeError:
+            # neither failed nor growing: the execution goes round at the bound (step budget: six times what reaching the bound takes)
+            n = len(eng0.se.execution_history.get(e) or [])
+            ctx.violation("execution-at-the-history-bound-is-not-failed", dict(case, status=w.outcome(e)[0], history_length=n, steps=400000), None)
+            return
         st_, out, err, t = w.outcome(e)
         eng = next(iter(w.engines.values()))
         n = len(eng.se.execution_history.get(e) or [])
@@ -319,7 +331,7 @@ def run(ctx):
                 with World(seed=ctx.seed) as wq:
                     wq.create_machine("std", {"StartAt": "A", "States": {"A": {"Type": "Pass", "Result": 1, "End": True}}})
                     api_input(ctx, wq, n, False, fill)
-    for variant in ("loop", "retry"):
+    for variant in ("loop", "retry", "retry-all", "catch-all-loop"):
         i += 1
         if ctx.mine(i):
             history_bound(ctx, variant)
